@@ -12,6 +12,7 @@ import Midgard.Generated.SinexBlocks
 import Midgard.Spec.Sinex202
 import Midgard.Proofs.FixedCol
 import Midgard.Proofs.Decimal
+import Midgard.Proofs.Split
 
 namespace Midgard.Props.C14
 open Midgard.Sinex Midgard.Generated.Sinex Midgard.FixedCol Midgard.Text Midgard.Decimal
@@ -672,9 +673,6 @@ theorem scan_body (segs : List Seg) (hwf : ∀ s ∈ segs, s.wf) :
           simp only [scan, hwe, Bool.false_eq_true, if_false, hfplus]
           exact ih hrest w
 
-namespace Midgard.Props.C14
-open Midgard.Sinex Midgard.Text
-
 /-- all blocks of a body, as `parse_blocks` would store them -/
 def blocksOf : List Seg → List RawBlock
   | [] => []
@@ -776,6 +774,872 @@ theorem order_independent (segs segs' : List Seg) (hperm : segs.Perm segs')
   simp only [Option.map_some, rawOf_expected]
   rw [rawOf_perm (blocksOf_perm hperm) hdistinct m]
 
+/-! ## 8. Whole files -/
+
+/-- every line closed by a line feed -/
+def joinLines : List Str → Str
+  | [] => []
+  | l :: ls => l ++ '\n' :: joinLines ls
+
+def NoNl (l : Str) : Prop := ∀ c ∈ l, c ≠ '\n'
+
+theorem splitOnAux_nosep (sep : Char) (l : Str) (hl : ∀ c ∈ l, c ≠ sep) (cur : Str) :
+    splitOnAux sep l cur = [cur.reverse ++ l] := by
+  induction l generalizing cur with
+  | nil => simp [splitOnAux]
+  | cons c l ih =>
+    have hc : c ≠ sep := hl c (by simp)
+    simp only [splitOnAux, hc, if_false]
+    rw [ih (fun x hx => hl x (by simp [hx]))]
+    simp
+
+theorem splitOnAux_line (sep : Char) (l : Str) (hl : ∀ c ∈ l, c ≠ sep) (rest cur : Str) :
+    splitOnAux sep (l ++ sep :: rest) cur = (cur.reverse ++ l) :: splitOnAux sep rest [] := by
+  induction l generalizing cur with
+  | nil => simp [splitOnAux]
+  | cons c l ih =>
+    have hc : c ≠ sep := hl c (by simp)
+    simp only [List.cons_append, splitOnAux, hc, if_false]
+    rw [ih (fun x hx => hl x (by simp [hx]))]
+    simp
+
+theorem splitOn_joinLines (ls : List Str) (last : Str) (h : ∀ l ∈ ls, NoNl l) (hlast : NoNl last) :
+    splitOn '\n' (joinLines ls ++ last) = ls ++ [last] := by
+  unfold splitOn
+  induction ls with
+  | nil => simpa [joinLines] using splitOnAux_nosep '\n' last hlast []
+  | cons l ls ih =>
+    simp only [joinLines, List.append_assoc, List.cons_append]
+    rw [splitOnAux_line '\n' l (h l (by simp))]
+    rw [ih (fun x hx => h x (by simp [hx]))]
+    simp
+
+/-- **lines of a file**: a text whose lines are each closed by a line feed is read back line by line;
+so is a text whose last line is not closed -/
+theorem fileLines_joinLines (ls : List Str) (h : ∀ l ∈ ls, NoNl l) : fileLines (joinLines ls) = ls := by
+  have := splitOn_joinLines ls [] h (by intro c hc; simp at hc)
+  simp only [List.append_nil] at this
+  unfold fileLines
+  simp only [this, List.reverse_append, List.reverse_cons, List.reverse_nil, List.nil_append, List.singleton_append,
+    List.reverse_reverse]
+
+theorem fileLines_unterminated (ls : List Str) (last : Str) (h : ∀ l ∈ ls, NoNl l) (hlast : NoNl last)
+    (hne : last ≠ []) : fileLines (joinLines ls ++ last) = ls ++ [last] := by
+  unfold fileLines
+  rw [splitOn_joinLines ls last h hlast]
+  cases last with
+  | nil => exact absurd rfl hne
+  | cons c r => simp
+
+/-- an abstract SINEX file: the header line and the pieces of the body (blocks in any order, with
+comment lines, blank lines, `%ENDSNX` and blocks nobody asked for between them) -/
+structure SnxFile where
+  header : Str
+  segs : List Seg
+
+def SnxFile.lines (F : SnxFile) : List Str := F.header :: body F.segs
+
+/-- the text of the file -/
+def SnxFile.text (F : SnxFile) : Str := joinLines F.lines
+
+def SnxFile.wf (F : SnxFile) : Prop := (∀ l ∈ F.lines, NoNl l) ∧ ∀ s ∈ F.segs, s.wf
+
+/-- what `parse_header_line` stores in `meta` -/
+def headerRow (tag : Str) (header : List FieldDef) (total : Str → Nat) (h : Str) : Row :=
+  if startsWith tag h then (if (dropComment h).isEmpty then [] else parseLine header (total h) h) else []
+
+/-- **reading a file**: the header line is parsed with the header table, and `parse_blocks` delivers
+exactly the first block of each declared marker, in file order -/
+theorem readRaw_file (tag : Str) (header : List FieldDef) (total : Str → Nat) (blocks : List BlockDef)
+    (F : SnxFile) (hwf : F.wf) :
+    readRaw tag header total blocks F.text =
+      some ⟨headerRow tag header total F.header, expected (blocks.map (·.marker)) F.segs⟩ := by
+  unfold readRaw SnxFile.text
+  rw [fileLines_joinLines _ hwf.1]
+  simp only [SnxFile.lines, findBlocks, scan_body F.segs hwf.2, Option.map_some, headerRow]
+
+
+/-! ### the result does not depend on the arrangement of the pieces -/
+
+/-- two bodies made of the same pieces deliver the same raw block for every marker -/
+theorem rawOf_expected_perm (segs segs' : List Seg) (hperm : segs.Perm segs')
+    (hdistinct : ((blocksOf segs).map (·.marker)).Nodup) (w : List String) :
+    rawOf (expected w segs') = rawOf (expected w segs) := by
+  funext m
+  rw [rawOf_expected, rawOf_expected, rawOf_perm (blocksOf_perm hperm) hdistinct m]
+
+/-- **file_order_independent**: for each of the parsers (base class with any declared blocks, site,
+discontinuities, events, tro, tms — all are `parseWith` with their own `assemble`), two files with the same
+header line whose bodies are arrangements of the same pieces (blocks in another order, comment lines
+and foreign blocks anywhere between them; each marker once) give the same result — header and all
+of `data` -/
+theorem file_order_independent (tag : Str) (header : List FieldDef) (total : Str → Nat) (blocks : List BlockDef)
+    (assemble : (String → Option RawBlock) → Option Val) (h : Str) (segs segs' : List Seg)
+    (hperm : segs.Perm segs') (hwf : SnxFile.wf ⟨h, segs⟩) (hnl : ∀ l ∈ body segs', NoNl l)
+    (hdistinct : ((blocksOf segs).map (·.marker)).Nodup) :
+    parseWith tag header total blocks assemble (SnxFile.text ⟨h, segs'⟩) =
+      parseWith tag header total blocks assemble (SnxFile.text ⟨h, segs⟩) := by
+  have hwf' : SnxFile.wf ⟨h, segs'⟩ := by
+    refine ⟨?_, fun s hs => hwf.2 s (hperm.mem_iff.mpr hs)⟩
+    intro l hl
+    simp only [SnxFile.lines, List.mem_cons] at hl
+    rcases hl with rfl | hl
+    · exact hwf.1 _ (by simp [SnxFile.lines])
+    · exact hnl l hl
+  unfold parseWith
+  rw [readRaw_file _ _ _ _ _ hwf, readRaw_file _ _ _ _ _ hwf']
+  simp only [Option.bind_some]
+  rw [rawOf_expected_perm segs segs' hperm hdistinct]
+
+/-! ### pieces the parser does not see -/
+
+/-- a piece is invisible after the pieces `pre` for a parser wanting the markers `w`: a line outside any
+block, a block whose marker was not declared, or a block whose marker already occurred (**a block
+given twice: the first one is read, the second is skipped like a foreign block**) -/
+def Invisible (w : List String) (pre : List Seg) : Seg → Prop
+  | .noise _ => True
+  | .block _ mk _ _ _ => asString mk ∉ w ∨ asString mk ∈ (blocksOf pre).map (·.marker)
+
+theorem expected_invisible (s : Seg) (post : List Seg) : ∀ (pre : List Seg) (w : List String), w.Nodup →
+    Invisible w pre s → expected w (pre ++ s :: post) = expected w (pre ++ post) := by
+  intro pre
+  induction pre with
+  | nil =>
+    intro w _ hinv
+    cases s with
+    | noise l => simp [expected]
+    | block h mk ps c f =>
+      simp only [Invisible, blocksOf, List.map_nil, List.not_mem_nil, or_false] at hinv
+      have : w.contains (asString mk) = false := by simpa using hinv
+      simp only [List.nil_append, expected, this, Bool.false_eq_true, if_false]
+  | cons p pre ih =>
+    intro w hnd hinv
+    cases p with
+    | noise l =>
+      simp only [List.cons_append, expected]
+      apply ih w hnd
+      cases s with
+      | noise _ => trivial
+      | block h mk ps c f => simpa [Invisible, blocksOf] using hinv
+    | block h' mk' ps' c' f' =>
+      simp only [List.cons_append, expected]
+      by_cases hin : w.contains (asString mk') = true
+      · simp only [hin, if_true]
+        congr 1
+        apply ih (w.erase (asString mk')) (hnd.erase _)
+        cases s with
+        | noise _ => trivial
+        | block h mk ps c f =>
+          simp only [Invisible, blocksOf, List.map_cons, List.mem_cons] at hinv ⊢
+          rcases hinv with hnot | heq | hmem
+          · exact Or.inl (fun hm => hnot (List.mem_of_mem_erase hm))
+          · left
+            rw [heq]
+            exact fun hm => (List.Nodup.mem_erase_iff hnd).mp hm |>.1 rfl
+          · exact Or.inr hmem
+      · have hin' : w.contains (asString mk') = false := by simpa using hin
+        simp only [hin', Bool.false_eq_true, if_false]
+        apply ih w hnd
+        cases s with
+        | noise _ => trivial
+        | block h mk ps c f =>
+          simp only [Invisible, blocksOf, List.map_cons, List.mem_cons] at hinv ⊢
+          rcases hinv with hnot | heq | hmem
+          · exact Or.inl hnot
+          · left
+            rw [heq]
+            simpa using hin'
+          · exact Or.inr hmem
+
+/-- **invisible pieces**: taking a comment line, a foreign block or the second copy of a block out of a
+file (or putting one in) does not change the result of any of the parsers -/
+theorem file_invisible (tag : Str) (header : List FieldDef) (total : Str → Nat) (blocks : List BlockDef)
+    (assemble : (String → Option RawBlock) → Option Val) (h : Str) (pre post : List Seg) (s : Seg)
+    (hw : (blocks.map (·.marker)).Nodup) (hinv : Invisible (blocks.map (·.marker)) pre s)
+    (hwf : SnxFile.wf ⟨h, pre ++ s :: post⟩) :
+    parseWith tag header total blocks assemble (SnxFile.text ⟨h, pre ++ s :: post⟩) =
+      parseWith tag header total blocks assemble (SnxFile.text ⟨h, pre ++ post⟩) := by
+  have hwf' : SnxFile.wf ⟨h, pre ++ post⟩ := by
+    constructor
+    · intro l hl
+      apply hwf.1 l
+      simp only [SnxFile.lines, body, List.mem_cons, List.flatMap_append, List.mem_append, List.flatMap_cons] at hl ⊢
+      rcases hl with h1 | h1 | h1
+      · exact Or.inl h1
+      · exact Or.inr (Or.inl h1)
+      · exact Or.inr (Or.inr (Or.inr h1))
+    · intro s' hs'
+      apply hwf.2 s'
+      simp only [List.mem_append, List.mem_cons] at hs' ⊢
+      rcases hs' with h1 | h1
+      · exact Or.inl h1
+      · exact Or.inr (Or.inr h1)
+  unfold parseWith
+  rw [readRaw_file _ _ _ _ _ hwf, readRaw_file _ _ _ _ _ hwf']
+  simp only [expected_invisible s post pre _ hw hinv]
+
+
+/-! ### the content of a block -/
+
+/-- the record begins with a blank: the table is not empty and its first field starts after column 0 -/
+def leadOk : Layout → Bool
+  | f :: _ => decide (1 ≤ f.start)
+  | [] => false
+
+/-- every non-empty table of the 80-column parsers has the lead blank (the empty one is
+SITE/GAL_PHASE_CENTER, a TODO in the source) -/
+theorem tables_lead_blank :
+    (snxBlocks.all fun b => b.fields.isEmpty || leadOk (layoutOf b.fields 81)) = true ∧
+    (tmsBlocks.all fun b => leadOk (layoutOf b.fields 200)) = true := by
+  decide +kernel
+
+theorem render_lead (L : Layout) (cells : List (Align × Str)) (hl : leadOk L = true) (hf : Fits L cells = true) :
+    ∃ r, renderA L cells = ' ' :: r := by
+  cases L with
+  | nil => simp [leadOk] at hl
+  | cons f L =>
+    cases cells with
+    | nil => simp [Fits] at hf
+    | cons c cs =>
+      obtain ⟨a, v⟩ := c
+      simp only [leadOk, decide_eq_true_eq] at hl
+      obtain ⟨k, hk⟩ : ∃ k, f.start = k + 1 := ⟨f.start - 1, by omega⟩
+      refine ⟨blanks k ++ pad a f.width v ++ renderFrom f.stop L cs, ?_⟩
+      simp [renderA, renderFrom, hk, blanks, List.replicate_succ]
+
+/-- a line inside a block: a record (texts placed in the columns of the table) or a comment line -/
+inductive Item
+  | record (cells : List (Align × Str))
+  | comment (line : Str)
+
+def Item.line (fs : List FieldDef) (total : Nat) : Item → Str
+  | .record cells => renderA (layoutOf fs total) cells
+  | .comment l => l
+
+def Item.wf (fs : List FieldDef) (total : Nat) : Item → Prop
+  | .record cells => Fits (layoutOf fs total) cells = true
+  | .comment l => startsWith ['*'] l = true
+
+/-- the lines between `+MARKER` and `-MARKER` -/
+def content (fs : List FieldDef) (total : Nat) (items : List Item) : List Str := items.map (Item.line fs total)
+
+/-- the records among the items, in order -/
+def records : List Item → List (List (Align × Str))
+  | [] => []
+  | .record c :: rest => c :: records rest
+  | .comment _ :: rest => records rest
+
+theorem startsWith_cons (c d : Char) (r : Str) : startsWith [c] (d :: r) = decide (c = d) := by
+  by_cases h : c = d <;> simp [startsWith, List.isPrefixOf, h]
+
+/-- content lines never close the block or open another one (hypothesis of `Seg.wf`) -/
+theorem content_ok (fs : List FieldDef) (total : Nat) (hl : leadOk (layoutOf fs total) = true) (items : List Item)
+    (hwf : ∀ i ∈ items, i.wf fs total) :
+    ∀ l ∈ content fs total items, startsWith ['-'] l = false ∧ startsWith ['+'] l = false := by
+  intro l hmem
+  simp only [content, List.mem_map] at hmem
+  obtain ⟨i, hi, rfl⟩ := hmem
+  have := hwf i hi
+  cases i with
+  | record cells =>
+    obtain ⟨r, hr⟩ := render_lead _ cells hl this
+    simp only [Item.line, hr, startsWith_cons]
+    decide
+  | comment c =>
+    simp only [Item.wf] at this
+    cases c with
+    | nil => simp [startsWith, List.isPrefixOf] at this
+    | cons ch r =>
+      simp only [startsWith_cons, decide_eq_true_eq] at this
+      subst this
+      simp only [Item.line, startsWith_cons]
+      decide
+
+/-- the data lines of a block are its records; comment lines are dropped -/
+theorem dataLines_content (fs : List FieldDef) (total : Nat) (hl : leadOk (layoutOf fs total) = true) (items : List Item)
+    (hwf : ∀ i ∈ items, i.wf fs total) :
+    dataLines (content fs total items) = (records items).map (renderA (layoutOf fs total)) := by
+  induction items with
+  | nil => rfl
+  | cons i rest ih =>
+    have hrest := ih (fun j hj => hwf j (by simp [hj]))
+    have hi := hwf i (by simp)
+    cases i with
+    | record cells =>
+      obtain ⟨r, hr⟩ := render_lead _ cells hl hi
+      have hsw : startsWith [' '] (renderA (layoutOf fs total) cells) = true := by
+        rw [hr, startsWith_cons]; decide
+      simp only [content, List.map_cons, Item.line, dataLines, List.filter_cons, hsw, if_true, records]
+      simp only [content, dataLines] at hrest
+      rw [hrest]
+    | comment c =>
+      simp only [Item.wf] at hi
+      have hsw : startsWith [' '] c = false := by
+        cases c with
+        | nil => rfl
+        | cons ch r =>
+          simp only [startsWith_cons, decide_eq_true_eq] at hi
+          subst hi
+          rw [startsWith_cons]; decide
+      simp only [content, List.map_cons, Item.line, dataLines, List.filter_cons, hsw, Bool.false_eq_true, if_false, records]
+      simp only [content, dataLines] at hrest
+      exact hrest
+
+/-- the values of one written record: every text converted by the rule its field declares -/
+def convertRow (fs : List FieldDef) (cells : List (Align × Str)) : Row :=
+  ((fs.zip (cells.map (·.2))).filter (·.1.dtype ≠ .skip)).map fun (fd, t) => (validName fd.name, convertCell fd t)
+
+/-- **records of a block**: `parse_lines` on the rendered records gives one row per record, in order, each
+holding the converted texts that were written -/
+theorem parseLines_records (fs : List FieldDef) (total : Nat) (hs : Sorted (layoutOf fs total) = true)
+    (hl : leadOk (layoutOf fs total) = true) (recs : List (List (Align × Str)))
+    (hf : ∀ c ∈ recs, Fits (layoutOf fs total) c = true) :
+    parseLines fs total (recs.map (renderA (layoutOf fs total))) = recs.map (convertRow fs) := by
+  unfold parseLines
+  have hfilter : (recs.map (renderA (layoutOf fs total))).filter (fun l => !(dropComment l).isEmpty) =
+      recs.map (renderA (layoutOf fs total)) := by
+    apply List.filter_eq_self.mpr
+    intro l hmem
+    simp only [List.mem_map] at hmem
+    obtain ⟨c, hc, rfl⟩ := hmem
+    obtain ⟨r, hr⟩ := render_lead _ c hl (hf c hc)
+    simp [dropComment, hr]
+  rw [hfilter, List.map_map]
+  apply List.map_congr_left
+  intro c hc
+  exact parseLine_roundtrip fs total c hs (hf c hc)
+
+/-! ### `self.data` of the base-class parser -/
+
+theorem dget_dset_ne {α} (d : List (String × α)) (k k' : String) (v : α) (h : k ≠ k') :
+    dget? (dset d k v) k' = dget? d k' := by
+  induction d with
+  | nil => simp [dset, dget?, h]
+  | cons p rest ih =>
+    obtain ⟨k0, v0⟩ := p
+    by_cases h0 : k0 = k
+    · subst h0; simp [dset, dget?, h]
+    · by_cases h1 : k0 = k'
+      · subst h1; simp [dset, dget?, h0]
+      · simp [dset, dget?, h0, h1, ih]
+
+theorem foldlM_baseStep (blocks0 : List BlockDef) (look : String → Option RawBlock) :
+    ∀ (bs : List BlockDef) (acc D : List (String × Val)), (bs.map (·.marker)).Nodup →
+      bs.foldlM (baseStep blocks0 look) acc = some D →
+      (∀ b ∈ bs, dget? D b.marker =
+        match look b.marker with
+        | Option.none => dget? acc b.marker
+        | some r => blockVal blocks0 look b r) ∧
+      (∀ m, m ∉ bs.map (·.marker) → dget? D m = dget? acc m) := by
+  intro bs
+  induction bs with
+  | nil =>
+    intro acc D _ h
+    simp only [List.foldlM_nil, Option.pure_def, Option.some.injEq] at h
+    subst h
+    exact ⟨fun b hb => by simp at hb, fun m _ => rfl⟩
+  | cons b rest ih =>
+    intro acc D hnd h
+    simp only [List.map_cons, List.nodup_cons] at hnd
+    obtain ⟨hb, hnd'⟩ := hnd
+    simp only [List.foldlM_cons, Option.bind_eq_bind] at h
+    cases hstep : baseStep blocks0 look acc b with
+    | none => simp [hstep] at h
+    | some acc' =>
+      rw [hstep, Option.bind_some] at h
+      obtain ⟨ih1, ih2⟩ := ih acc' D hnd' h
+      -- what the step did to the accumulator
+      have hacc' : (∀ m, m ≠ b.marker → dget? acc' m = dget? acc m) ∧
+          dget? acc' b.marker = (match look b.marker with
+            | Option.none => dget? acc b.marker
+            | some r => blockVal blocks0 look b r) := by
+        unfold baseStep at hstep
+        cases hlook : look b.marker with
+        | none =>
+          simp only [hlook, Option.some.injEq] at hstep
+          subst hstep
+          exact ⟨fun m _ => rfl, rfl⟩
+        | some r =>
+          simp only [hlook] at hstep
+          cases hv : blockVal blocks0 look b r with
+          | none => simp [hv] at hstep
+          | some v =>
+            simp only [hv, Option.map_some, Option.some.injEq] at hstep
+            subst hstep
+            exact ⟨fun m hm => dget_dset_ne _ _ _ _ (Ne.symm hm), by rw [dget_dset_self]; exact hv.symm⟩
+      constructor
+      · intro b' hb'
+        rcases List.mem_cons.mp hb' with rfl | hin
+        · rw [ih2 _ hb, hacc'.2]
+        · have hne : b'.marker ≠ b.marker := fun e => hb (by rw [← e]; exact List.mem_map_of_mem hin)
+          rw [ih1 b' hin]
+          cases look b'.marker with
+          | none => exact hacc'.1 _ hne
+          | some r => rfl
+      · intro m hm
+        have hm1 : m ≠ b.marker := fun e => hm (by simp [e])
+        have hm2 : m ∉ rest.map (·.marker) := fun e => hm (by simp only [List.map_cons, List.mem_cons]; exact Or.inr e)
+        rw [ih2 m hm2, hacc'.1 m hm1]
+
+/-- **`self.data` block by block**: when the base-class parser returns, each declared block that is in the
+file is stored under its marker with exactly what its factory parser makes of its own raw block,
+declared blocks that are not in the file are absent, and nothing else is stored (whatever the order
+of the declarations and of the blocks in the file) -/
+theorem assembleBase_get (blocks : List BlockDef) (look : String → Option RawBlock) (D : List (String × Val))
+    (hnd : (blocks.map (·.marker)).Nodup) (h : assembleBase blocks look = some D) :
+    (∀ b ∈ blocks, dget? D b.marker = (look b.marker).bind (blockVal blocks look b)) ∧
+    (∀ m, m ∉ blocks.map (·.marker) → dget? D m = Option.none) := by
+  obtain ⟨h1, h2⟩ := foldlM_baseStep blocks look blocks [] D hnd h
+  constructor
+  · intro b hb
+    rw [h1 b hb]
+    cases look b.marker <;> rfl
+  · intro m hm
+    rw [h2 m hm]; rfl
+
+
+/-- the parser succeeds on every file when only default block parsers are declared -/
+theorem assembleBase_dflt_ok (blocks0 : List BlockDef) (look : String → Option RawBlock) :
+    ∀ (bs : List BlockDef) (acc : List (String × Val)), (∀ b ∈ bs, b.kind = .dflt) →
+      ∃ D, bs.foldlM (baseStep blocks0 look) acc = some D := by
+  intro bs
+  induction bs with
+  | nil => intro acc _; exact ⟨acc, rfl⟩
+  | cons b rest ih =>
+    intro acc hk
+    have hb : b.kind = .dflt := hk b (by simp)
+    have hrest : ∀ b' ∈ rest, b'.kind = .dflt := fun b' h' => hk b' (by simp [h'])
+    simp only [List.foldlM_cons, Option.bind_eq_bind]
+    cases hlook : look b.marker with
+    | none =>
+      simp only [baseStep, hlook, Option.bind_some]
+      exact ih acc hrest
+    | some r =>
+      simp only [baseStep, hlook, blockVal, hb, Option.map_some, Option.bind_some]
+      exact ih _ hrest
+
+theorem rawOf_blocksOf_first (h mk : Str) (ps c : List Str) (f : Str) (post : List Seg) :
+    ∀ pre : List Seg, asString mk ∉ (blocksOf pre).map (·.marker) →
+      rawOf (blocksOf (pre ++ Seg.block h mk ps c f :: post)) (asString mk) = some ⟨asString mk, ps, dataLines c⟩ := by
+  intro pre
+  induction pre with
+  | nil => intro _; simp [blocksOf, rawOf_cons]
+  | cons p pre ih =>
+    intro hp
+    cases p with
+    | noise l => simp only [List.cons_append, blocksOf] at hp ⊢; exact ih hp
+    | block h' mk' ps' c' f' =>
+      simp only [blocksOf, List.map_cons, List.mem_cons, not_or] at hp
+      simp only [List.cons_append, blocksOf, rawOf_cons]
+      have : ¬ asString mk' = asString mk := fun e => hp.1 e.symm
+      simp only [this, if_false]
+      exact ih hp.2
+
+theorem records_fits (fs : List FieldDef) (total : Nat) (items : List Item) (hwf : ∀ i ∈ items, i.wf fs total) :
+    ∀ c ∈ records items, Fits (layoutOf fs total) c = true := by
+  induction items with
+  | nil => intro c hc; simp [records] at hc
+  | cons i rest ih =>
+    have hrest := ih (fun j hj => hwf j (by simp [hj]))
+    have hi := hwf i (by simp)
+    cases i with
+    | record cells =>
+      intro c hc
+      simp only [records, List.mem_cons] at hc
+      rcases hc with rfl | hc
+      · exact hi
+      · exact hrest c hc
+    | comment l => intro c hc; exact hrest c (by simpa [records] using hc)
+
+/-- the raw block a file delivers for a declared marker: the records of the first block of that marker -/
+theorem file_block_rows (b : BlockDef) (w : List String) (hw : b.marker ∈ w) (total : Nat)
+    (hs : Sorted (layoutOf b.fields total) = true) (hl : leadOk (layoutOf b.fields total) = true)
+    (pre post : List Seg) (h mk : Str) (ps : List Str) (f : Str) (items : List Item)
+    (hmk : asString mk = b.marker) (hfirst : b.marker ∉ (blocksOf pre).map (·.marker))
+    (hitems : ∀ i ∈ items, i.wf b.fields total) :
+    ∃ r, rawOf (expected w (pre ++ Seg.block h mk ps (content b.fields total items) f :: post)) b.marker = some r ∧
+      r.params = ps ∧ parseLines b.fields total r.lines = (records items).map (convertRow b.fields) := by
+  refine ⟨⟨asString mk, ps, dataLines (content b.fields total items)⟩, ?_, rfl, ?_⟩
+  · rw [rawOf_expected]
+    simp only [hw, if_true]
+    rw [← hmk] at hfirst ⊢
+    exact rawOf_blocksOf_first h mk ps _ f post pre hfirst
+  · simp only
+    rw [dataLines_content _ _ hl items hitems]
+    exact parseLines_records _ _ hs hl _ (records_fits _ _ items hitems)
+
+/-- **file_roundtrip (default blocks)**: a base-class parser declaring `blocks` (distinct markers, any
+order) reads a file whose body holds — anywhere, between whatever other blocks, comment lines and
+foreign blocks — a block `+MARKER … -MARKER` of the declared default block `b` (the first one of
+that marker) made of records and comment lines.  Then `data[MARKER]` is the dictionary of `b`'s columns
+over exactly the written records, in order, every value being the declared conversion of the text
+written into the field's columns; `meta` is the header line read with the header table. -/
+theorem base_file_roundtrip (header : List FieldDef) (blocks : List BlockDef) (b : BlockDef)
+    (hb : b ∈ blocks) (hkind : b.kind = .dflt) (hnd : (blocks.map (·.marker)).Nodup)
+    (hs : Sorted (layoutOf b.fields 81) = true) (hl : leadOk (layoutOf b.fields 81) = true)
+    (hd : Str) (pre post : List Seg) (h mk : Str) (ps : List Str) (f : Str) (items : List Item)
+    (hmk : asString mk = b.marker) (hfirst : b.marker ∉ (blocksOf pre).map (·.marker))
+    (hitems : ∀ i ∈ items, i.wf b.fields 81)
+    (hwf : SnxFile.wf ⟨hd, pre ++ Seg.block h mk ps (content b.fields 81 items) f :: post⟩)
+    (R : Result)
+    (hR : parseBaseFile header blocks
+      (SnxFile.text ⟨hd, pre ++ Seg.block h mk ps (content b.fields 81 items) f :: post⟩) = some R) :
+    R.hdr = headerRow snxTag header (fun _ => 81) hd ∧
+    ∃ D, R.data = .dict D ∧
+      dget? D b.marker = some (.dict (columns b.fields ((records items).map (convertRow b.fields)))) := by
+  unfold parseBaseFile parseWith at hR
+  rw [readRaw_file _ _ _ _ _ hwf] at hR
+  simp only [Option.bind_some] at hR
+  cases hD : assembleBase blocks (rawOf (expected (blocks.map (·.marker))
+      (pre ++ Seg.block h mk ps (content b.fields 81 items) f :: post))) with
+  | none => simp [hD] at hR
+  | some D =>
+    simp only [hD, Option.map_some, Option.some.injEq] at hR
+    subst hR
+    refine ⟨rfl, D, rfl, ?_⟩
+    have hget := (assembleBase_get blocks _ D hnd hD).1 b hb
+    obtain ⟨r, hr, _, hrows⟩ := file_block_rows b (blocks.map (·.marker)) (List.mem_map_of_mem hb) 81 hs hl
+      pre post h mk ps f items hmk hfirst hitems
+    rw [hget, hr]
+    simp only [Option.bind_some, blockVal, hkind, rowsOf, hrows]
+
+/-- … and when only default block parsers are declared the parser returns on every such file -/
+theorem base_file_returns (header : List FieldDef) (blocks : List BlockDef) (hk : ∀ b ∈ blocks, b.kind = .dflt)
+    (F : SnxFile) (hwf : F.wf) : ∃ R, parseBaseFile header blocks F.text = some R := by
+  unfold parseBaseFile parseWith
+  rw [readRaw_file _ _ _ _ _ hwf]
+  obtain ⟨D, hD⟩ := assembleBase_dflt_ok blocks (rawOf (expected (blocks.map (·.marker)) F.segs)) blocks [] hk
+  exact ⟨⟨headerRow snxTag header (fun _ => 81) F.header, .dict D⟩, by simp [assembleBase, hD]⟩
+
+
+/-- the hypotheses of `base_file_roundtrip` are satisfiable: a FILE/COMMENT block after a comment line and a
+foreign block, followed by a second copy -/
+def exFields : List FieldDef := [⟨"comment", 1, .u 79, .none⟩]
+def exBlock : BlockDef := ⟨"FILE/COMMENT", exFields, .dflt⟩
+def exItems : List Item := [.record [(.left, "hello world".toList)], .comment "*remark".toList, .record [(.left, "x".toList)]]
+def exPre : List Seg := [.noise "* ----".toList,
+  .block "+X/BLOCK".toList "X/BLOCK".toList [] [" foreign".toList] "-X/BLOCK".toList]
+def exPost : List Seg := [.block "+FILE/COMMENT".toList "FILE/COMMENT".toList [] [" again".toList] "-FILE/COMMENT".toList,
+  .noise "%ENDSNX".toList]
+def exFile : SnxFile :=
+  ⟨"%=SNX 2.02".toList, exPre ++ Seg.block "+FILE/COMMENT".toList "FILE/COMMENT".toList [] (content exFields 81 exItems)
+      "-FILE/COMMENT".toList :: exPost⟩
+
+instance (s : Seg) : Decidable s.wf := by
+  cases s <;> (simp only [Seg.wf]; infer_instance)
+
+instance (fs : List FieldDef) (total : Nat) (i : Item) : Decidable (i.wf fs total) := by
+  cases i <;> (simp only [Item.wf]; infer_instance)
+
+example : Sorted (layoutOf exBlock.fields 81) = true ∧ leadOk (layoutOf exBlock.fields 81) = true ∧
+    asString "FILE/COMMENT".toList = exBlock.marker ∧ exBlock.marker ∉ (blocksOf exPre).map (·.marker) ∧
+    (∀ i ∈ exItems, i.wf exFields 81) ∧ exFile.wf := by
+  refine ⟨by decide +kernel, by decide +kernel, by decide +kernel, by decide +kernel, by decide +kernel, ?_, by decide +kernel⟩
+  unfold NoNl
+  decide +kernel
+
+/-! ## 9. SINEX-TMS (`sinex_tms`) -/
+
+/-- a dictionary filled key by key: every key holds what its own entry produced -/
+theorem foldlM_dset_get {β} (key : β → String) (f : β → Option Val) :
+    ∀ (l : List β) (acc D : List (String × Val)), (l.map key).Nodup →
+      l.foldlM (fun D x => (f x).map fun v => dset D (key x) v) acc = some D →
+      (∀ x ∈ l, dget? D (key x) = f x) ∧ (∀ m, m ∉ l.map key → dget? D m = dget? acc m) := by
+  intro l
+  induction l with
+  | nil =>
+    intro acc D _ h
+    simp only [List.foldlM_nil, Option.pure_def, Option.some.injEq] at h
+    subst h
+    exact ⟨fun x hx => by simp at hx, fun m _ => rfl⟩
+  | cons a rest ih =>
+    intro acc D hnd h
+    simp only [List.map_cons, List.nodup_cons] at hnd
+    obtain ⟨ha, hnd'⟩ := hnd
+    simp only [List.foldlM_cons, Option.bind_eq_bind] at h
+    cases hv : f a with
+    | none => simp [hv] at h
+    | some v =>
+      simp only [hv, Option.map_some, Option.bind_some] at h
+      obtain ⟨ih1, ih2⟩ := ih _ D hnd' h
+      constructor
+      · intro x hx
+        rcases List.mem_cons.mp hx with rfl | hin
+        · rw [ih2 _ ha, dget_dset_self, hv]
+        · exact ih1 x hin
+      · intro m hm
+        have hm1 : key a ≠ m := fun e => hm (by simp [e])
+        have hm2 : m ∉ rest.map key := fun e => hm (by simp only [List.map_cons, List.mem_cons]; exact Or.inr e)
+        rw [ih2 m hm2, dget_dset_ne _ _ _ _ hm1]
+
+/-- a TIMESERIES/DATA record: tokens, each preceded by blanks (at least one; the first pad holds the
+record's lead blank), blanks allowed at the end -/
+def wsLine (r : List (Str × Str) × Str) : Str := padded r.1 ++ r.2
+
+def wsTokens (r : List (Str × Str) × Str) : List Str := r.1.map (·.2)
+
+theorem split_wsLine (r : List (Str × Str) × Str) (hok : PadsOk r.1 = true) (hb : isBlank r.2 = true) :
+    split (wsLine r) = wsTokens r := by
+  unfold wsLine split
+  rw [splitAux_blank_end hb]
+  exact split_padded r.1 hok
+
+/-- **whitespace mode**: records of `n > 0` tokens each come back as exactly those tokens, record by
+record, whatever the amount of blanks between them -/
+theorem wsRows_roundtrip (recs : List (List (Str × Str) × Str)) (n : Nat) (hn : 0 < n)
+    (hok : ∀ r ∈ recs, PadsOk r.1 = true ∧ isBlank r.2 = true ∧ r.1.length = n) :
+    wsRows (recs.map wsLine) = some (recs.map wsTokens) := by
+  have hsplit : (recs.map wsLine).map split = recs.map wsTokens := by
+    rw [List.map_map]
+    apply List.map_congr_left
+    intro r hr
+    exact split_wsLine r (hok r hr).1 (hok r hr).2.1
+  have hlen : ∀ t ∈ recs.map wsTokens, t.length = n := by
+    intro t ht
+    simp only [List.mem_map] at ht
+    obtain ⟨r, hr, rfl⟩ := ht
+    simp [wsTokens, (hok r hr).2.2]
+  have hfilter : (recs.map wsTokens).filter (fun r => !r.isEmpty) = recs.map wsTokens := by
+    apply List.filter_eq_self.mpr
+    intro t ht
+    have := hlen t ht
+    cases t with
+    | nil => simp at this; omega
+    | cons _ _ => rfl
+  unfold wsRows
+  simp only [hsplit, hfilter]
+  have hall : ((recs.map wsTokens).all fun r => r.length == ((recs.map wsTokens).headD []).length) = true := by
+    rw [List.all_eq_true]
+    intro t ht
+    cases hrecs : recs.map wsTokens with
+    | nil => rw [hrecs] at ht; simp at ht
+    | cons t0 rest =>
+      have h0 : t0.length = n := hlen t0 (by rw [hrecs]; simp)
+      simp [hlen t ht, h0]
+  simp only [hall, if_true]
+
+theorem length_wsColumns (rows : List (List Str)) : (wsColumns rows).length = (rows.headD []).length := by
+  simp [wsColumns]
+
+theorem getElem_wsColumns (rows : List (List Str)) (j : Nat) (hj : j < (rows.headD []).length) :
+    (wsColumns rows)[j]'(by rw [length_wsColumns]; exact hj) = column j rows := by
+  simp [wsColumns]
+
+/-- **TIMESERIES/DATA column by column**: when `parse_timeseries_data` returns, the entry of the `j`-th
+declared column name (lower-cased; names distinct, not more names than data columns) is the conversion of
+exactly the `j`-th token of every record, in record order -/
+theorem tmsData_get (names : List Str) (lines : List Str) (rows : List (List Str)) (D : List (String × Val))
+    (hrows : wsRows lines = some rows) (h : tmsData names lines = some D)
+    (hnd : (names.map fun nm => asString (lower nm)).Nodup) (hlen : names.length ≤ (rows.headD []).length)
+    (j : Nat) (hj : j < names.length) :
+    dget? D (asString (lower names[j])) = tmsCol names[j] (column j rows) := by
+  unfold tmsData at h
+  rw [hrows, Option.bind_some] at h
+  have hlen' : names.length ≤ (wsColumns rows).length := by rw [length_wsColumns]; exact hlen
+  have hkeys : ((names.zip (wsColumns rows)).map fun nc => asString (lower nc.1)) =
+      names.map fun nm => asString (lower nm) := by
+    have := List.map_fst_zip (l₁ := names) (l₂ := wsColumns rows) hlen'
+    conv => rhs; rw [← this]
+    rw [List.map_map]
+    rfl
+  obtain ⟨h1, _⟩ := foldlM_dset_get (fun nc : Str × List Str => asString (lower nc.1)) (fun nc => tmsCol nc.1 nc.2)
+    (names.zip (wsColumns rows)) [] D (by rw [hkeys]; exact hnd) h
+  have hjc : j < (wsColumns rows).length := by omega
+  have hmem : (names[j], (wsColumns rows)[j]) ∈ names.zip (wsColumns rows) := by
+    rw [List.mem_iff_getElem]
+    exact ⟨j, by simp [List.length_zip]; omega, by simp⟩
+  have := h1 _ hmem
+  simp only at this
+  rw [this, getElem_wsColumns rows j (by omega)]
+
+/-- a text column keeps its tokens; a float column holds the value of each decimal token -/
+theorem tmsCol_text (name : Str) (col : List Str) (hn : dtypeStr.contains name = true)
+    (hc : ∀ t ∈ col, parseFloat t = Option.none) : tmsCol name col = some (.col (col.map Cell.str)) := by
+  have : (col.all fun t => (parseFloat t).isNone) = true := by
+    rw [List.all_eq_true]; intro t ht; simp [hc t ht]
+  unfold tmsCol
+  rw [if_pos hn, if_pos this]
+
+theorem tmsCol_float (name : Str) (col : List Str) (qs : List Rat) (hn : dtypeStr.contains name = false)
+    (hc : col.map parseFloat = qs.map some) : tmsCol name col = some (.col (qs.map fun q => Cell.flt (some q))) := by
+  have hm : col.mapM parseFloat = some qs := by
+    induction col generalizing qs with
+    | nil => cases qs <;> simp_all
+    | cons t col ih =>
+      cases qs with
+      | nil => simp at hc
+      | cons q qs =>
+        simp only [List.map_cons, List.cons.injEq] at hc
+        simp [List.mapM_cons, hc.1, ih qs hc.2]
+  unfold tmsCol
+  rw [if_neg (by rw [hn]; decide), hm]
+  rfl
+
+/-- **the whole TIMESERIES/DATA round trip**: `n > 0` tokens per record, any blanks between them -/
+theorem tms_data_roundtrip (names : List Str) (recs : List (List (Str × Str) × Str)) (n : Nat) (hn : 0 < n)
+    (hok : ∀ r ∈ recs, PadsOk r.1 = true ∧ isBlank r.2 = true ∧ r.1.length = n) (hne : recs ≠ [])
+    (hnd : (names.map fun nm => asString (lower nm)).Nodup) (hlen : names.length ≤ n)
+    (D : List (String × Val)) (h : tmsData names (recs.map wsLine) = some D) (j : Nat) (hj : j < names.length) :
+    dget? D (asString (lower names[j])) = tmsCol names[j] (recs.map fun r => (wsTokens r).getD j []) := by
+  have hrows := wsRows_roundtrip recs n hn hok
+  have hhead : ((recs.map wsTokens).headD []).length = n := by
+    cases recs with
+    | nil => exact absurd rfl hne
+    | cons r rest => simp [wsTokens, (hok r (by simp)).2.2]
+  rw [tmsData_get names _ _ D hrows h hnd (by rw [hhead]; exact hlen) j hj]
+  simp [column, List.map_map, Function.comp_def]
+
+/-- the site blocks of sinex_tms keep every record, in order, after the ones already stored — each
+record with its own `site_code` field, so records of several stations stay with their station -/
+theorem tms_site_rows (D : List (String × Val)) (e : String) (rows : List Row) :
+    ∃ old, dget? (appendRows D e rows) e = some (.list (old ++ rows.map rowVal)) := by
+  unfold appendRows
+  exact ⟨_, dget_dset_self _ _ _⟩
+
+
+/-! ### fixed-width blocks of sinex_tms: the last field ends where the longest line ends -/
+
+theorem slice_to_end (n : String) (s t t' : Nat) (line : Str) (h : line.length ≤ t) (h' : line.length ≤ t') :
+    FixedCol.slice ⟨n, s, t⟩ line = FixedCol.slice ⟨n, s, t'⟩ line := by
+  simp [FixedCol.slice, sliceRaw, Text.slice, List.take_of_length_le h, List.take_of_length_le h']
+
+/-- the end column of the last field does not matter once it is beyond the end of the line -/
+theorem ofStarts_slice_total (line : Str) (t t' : Nat) (h : line.length ≤ t) (h' : line.length ≤ t') :
+    ∀ (starts : List Nat) (names : List String),
+      (ofStarts names starts t).map (fun f => FixedCol.slice f line) =
+      (ofStarts names starts t').map (fun f => FixedCol.slice f line) := by
+  intro starts
+  induction starts with
+  | nil => intro names; cases names <;> simp [ofStarts]
+  | cons s rest ih =>
+    intro names
+    cases names with
+    | nil => simp [ofStarts]
+    | cons n ns =>
+      cases rest with
+      | nil => simp only [ofStarts, List.map_cons, List.map_nil]; rw [slice_to_end n s t t' line h h']
+      | cons u rest' =>
+        simp only [ofStarts, List.map_cons]
+        rw [ih ns]
+
+theorem cutLine_total (fs : List FieldDef) (t t' : Nat) (line : Str) (h : line.length ≤ t) (h' : line.length ≤ t') :
+    cutLine fs t line = cutLine fs t' line := by
+  unfold cutLine layoutOf dropComment
+  exact ofStarts_slice_total line t t' h h' _ _
+
+theorem layoutOf_last_stop (total : Nat) : ∀ (fs : List FieldDef), fs ≠ [] →
+    ((layoutOf fs total).getLast?.map (·.stop)) = some total := by
+  intro fs
+  induction fs with
+  | nil => intro h; exact absurd rfl h
+  | cons f rest ih =>
+    intro _
+    cases rest with
+    | nil => simp [layoutOf, ofStarts]
+    | cons g rest' =>
+      have hcons : layoutOf (f :: g :: rest') total = ⟨f.name, f.start, g.start⟩ :: layoutOf (g :: rest') total := by
+        simp [layoutOf, ofStarts]
+      have hne : layoutOf (g :: rest') total ≠ [] := by
+        cases rest' <;> simp [layoutOf, ofStarts]
+      rw [hcons]
+      cases hL : layoutOf (g :: rest') total with
+      | nil => exact absurd hL hne
+      | cons x L =>
+        rw [List.getLast?_cons_cons, ← hL]
+        exact ih (by simp)
+
+/-- a rendered record is exactly `total` characters long -/
+theorem length_render (fs : List FieldDef) (total : Nat) (cells : List (Align × Str)) (hne : fs ≠ [])
+    (hs : Sorted (layoutOf fs total) = true) (hf : Fits (layoutOf fs total) cells = true) :
+    (renderA (layoutOf fs total) cells).length = total := by
+  have := length_renderFrom (layoutOf fs total) 0 cells hs hf
+  rw [layoutOf_last_stop total fs hne] at this
+  simpa [renderA] using this
+
+theorem le_maxChar (lines : List Str) : ∀ l ∈ lines, l.length + 1 ≤ maxChar lines := by
+  unfold maxChar
+  suffices H : ∀ (ls : List Str) (m : Nat), m ≤ ls.foldl (fun m l => max m (l.length + 1)) m ∧
+      ∀ l ∈ ls, l.length + 1 ≤ ls.foldl (fun m l => max m (l.length + 1)) m from fun l hl => (H lines 0).2 l hl
+  intro ls
+  induction ls with
+  | nil => intro m; exact ⟨Nat.le_refl _, fun l hl => by simp at hl⟩
+  | cons a rest ih =>
+    intro m
+    simp only [List.foldl_cons]
+    obtain ⟨h1, h2⟩ := ih (max m (a.length + 1))
+    constructor
+    · omega
+    · intro l hl
+      rcases List.mem_cons.mp hl with rfl | hin
+      · omega
+      · exact h2 l hin
+
+theorem length_rstrip_le (l : Str) : (rstrip l).length ≤ l.length := by
+  obtain ⟨ws, h, _⟩ := rstrip_decomp l
+  have := congrArg List.length h
+  simp only [List.length_append] at this
+  omega
+
+/-- how a writer leaves a record in the file: as rendered, or without its trailing blanks -/
+def emit (stripped : Bool) (l : Str) : Str := if stripped then rstrip l else l
+
+/-- **fixed-width blocks of sinex_tms**: records rendered into the columns of a table whose last field
+ends at column `W`, written with or without their trailing blanks (so that the lines have different
+lengths), are read back by `SinexTmsParser.parse_lines` — which ends the last field at the length of the
+longest line — record by record with the written texts converted -/
+theorem tms_block_roundtrip (fs : List FieldDef) (W : Nat) (hne : fs ≠ [])
+    (hs : Sorted (layoutOf fs W) = true) (recs : List (Bool × List (Align × Str)))
+    (hf : ∀ r ∈ recs, Fits (layoutOf fs W) r.2 = true)
+    (hvis : ∀ r ∈ recs, emit r.1 (renderA (layoutOf fs W) r.2) ≠ []) :
+    let lines := recs.map fun r => emit r.1 (renderA (layoutOf fs W) r.2)
+    parseLines fs (maxChar lines) lines = recs.map fun r => convertRow fs r.2 := by
+  intro lines
+  unfold parseLines
+  have hfilter : lines.filter (fun l => !(dropComment l).isEmpty) = lines := by
+    apply List.filter_eq_self.mpr
+    intro l hmem
+    simp only [lines, List.mem_map] at hmem
+    obtain ⟨r, hr, rfl⟩ := hmem
+    have := hvis r hr
+    cases hl : emit r.1 (renderA (layoutOf fs W) r.2) with
+    | nil => exact absurd hl this
+    | cons _ _ => simp [dropComment]
+  rw [hfilter]
+  simp only [lines, List.map_map]
+  apply List.map_congr_left
+  intro r hr
+  have hmem : emit r.1 (renderA (layoutOf fs W) r.2) ∈ lines := List.mem_map_of_mem (f := fun r => emit r.1 (renderA (layoutOf fs W) r.2)) hr
+  have hmax := le_maxChar lines _ hmem
+  have hlenW : (emit r.1 (renderA (layoutOf fs W) r.2)).length ≤ W := by
+    have hl := length_render fs W r.2 hne hs (hf r hr)
+    unfold emit
+    by_cases hb : r.1 = true
+    · simp only [hb, if_true]
+      have := length_rstrip_le (renderA (layoutOf fs W) r.2)
+      omega
+    · simp only [hb, if_false, Bool.false_eq_true]
+      omega
+  simp only [Function.comp, parseLine, convertRow]
+  rw [cutLine_total fs (maxChar lines) W _ (by omega) hlenW]
+  have hcut := block_roundtrip fs W r.2 hs (hf r hr)
+  unfold emit
+  by_cases hb : r.1 = true
+  · simp only [hb, if_true]; rw [hcut.2]
+  · simp only [hb, if_false, Bool.false_eq_true]; rw [hcut.1]
+
+/-- non-vacuity: three tokens after one, three and two blanks, trailing blanks -/
+example : wsRows [wsLine ([(" ".toList, "2023-05-22".toList), ("   ".toList, "4331296.8156".toList),
+      ("  ".toList, "0.0008".toList)], "  ".toList),
+    wsLine ([("  ".toList, "2023-05-23".toList), (" ".toList, "4331296.8147".toList), (" ".toList, "-1e-3".toList)], [])] =
+    some [["2023-05-22".toList, "4331296.8156".toList, "0.0008".toList],
+      ["2023-05-23".toList, "4331296.8147".toList, "-1e-3".toList]] := by decide +kernel
+
+example : PadsOk [(" ".toList, "2023-05-22".toList), ("   ".toList, "4331296.8156".toList)] = true ∧
+    tmsCol "X".toList ["4331296.8156".toList, "12".toList] = some (.col [.flt (some 4331296.8156), .flt (some 12)]) := by
+  constructor
+  · decide +kernel
+  · exact tmsCol_float _ _ [4331296.8156, 12] (by decide +kernel) (by decide +kernel)
+
 end Midgard.Props.C14
 
 #print axioms Midgard.Props.C14.starts_sorted
@@ -823,3 +1687,46 @@ end Midgard.Props.C14
 #print axioms Midgard.Props.C14.blocksOf_perm
 #print axioms Midgard.Props.C14.rawOf_perm
 #print axioms Midgard.Props.C14.order_independent
+#print axioms Midgard.Props.C14.splitOnAux_nosep
+#print axioms Midgard.Props.C14.splitOnAux_line
+#print axioms Midgard.Props.C14.splitOn_joinLines
+#print axioms Midgard.Props.C14.fileLines_joinLines
+#print axioms Midgard.Props.C14.fileLines_unterminated
+#print axioms Midgard.Props.C14.readRaw_file
+#print axioms Midgard.Props.C14.rawOf_expected_perm
+#print axioms Midgard.Props.C14.file_order_independent
+#print axioms Midgard.Props.C14.expected_invisible
+#print axioms Midgard.Props.C14.file_invisible
+#print axioms Midgard.Props.C14.tables_lead_blank
+#print axioms Midgard.Props.C14.render_lead
+#print axioms Midgard.Props.C14.startsWith_cons
+#print axioms Midgard.Props.C14.content_ok
+#print axioms Midgard.Props.C14.dataLines_content
+#print axioms Midgard.Props.C14.parseLines_records
+#print axioms Midgard.Props.C14.dget_dset_ne
+#print axioms Midgard.Props.C14.foldlM_baseStep
+#print axioms Midgard.Props.C14.assembleBase_get
+#print axioms Midgard.Props.C14.assembleBase_dflt_ok
+#print axioms Midgard.Props.C14.rawOf_blocksOf_first
+#print axioms Midgard.Props.C14.records_fits
+#print axioms Midgard.Props.C14.file_block_rows
+#print axioms Midgard.Props.C14.base_file_roundtrip
+#print axioms Midgard.Props.C14.base_file_returns
+#print axioms Midgard.Props.C14.foldlM_dset_get
+#print axioms Midgard.Props.C14.split_wsLine
+#print axioms Midgard.Props.C14.wsRows_roundtrip
+#print axioms Midgard.Props.C14.length_wsColumns
+#print axioms Midgard.Props.C14.getElem_wsColumns
+#print axioms Midgard.Props.C14.tmsData_get
+#print axioms Midgard.Props.C14.tmsCol_text
+#print axioms Midgard.Props.C14.tmsCol_float
+#print axioms Midgard.Props.C14.tms_data_roundtrip
+#print axioms Midgard.Props.C14.tms_site_rows
+#print axioms Midgard.Props.C14.slice_to_end
+#print axioms Midgard.Props.C14.ofStarts_slice_total
+#print axioms Midgard.Props.C14.cutLine_total
+#print axioms Midgard.Props.C14.layoutOf_last_stop
+#print axioms Midgard.Props.C14.length_render
+#print axioms Midgard.Props.C14.le_maxChar
+#print axioms Midgard.Props.C14.length_rstrip_le
+#print axioms Midgard.Props.C14.tms_block_roundtrip
